@@ -19,7 +19,13 @@ RULE = ("one case = a deterministic, functional program recorded through a real 
         "PLACE after the capture, with copy-on-interception on, and whose later outputs and result depend on it - every "
         "container shape (tuple of list/dict/object/set, tuple in tuple, list, dict, object, nested mixes) x instance/static "
         "input x no / pass-through / wrapping data handler x the three cassettes, two inputs changed alternately, and a "
-        "never-sampled class (rate 0) whose operation enforces sampling after the capture; non-trivial = at "
+        "never-sampled class (rate 0) whose operation enforces sampling after the capture; a fallback-priority stream that "
+        "always runs (a renamed input that keeps its old alias as fallback while the old input is still called with equal "
+        "arguments: main and fallback key both recorded, old input before/after, fallback key sorting before/after the main "
+        "key, list/function fallbacks, three cassettes); cross-process cases (kind xproc: recorded by one interpreter into a "
+        "file-based cassette, each replay by another interpreter with its own PYTHONHASHSEED; inputs with two or three "
+        "captured arguments given by position AND name called with the same values in different positions, plus programs of "
+        "the main stream); output data handlers preparing an int / None; non-trivial = at "
         "least two interceptions; distinct = distinct (program, cassette)")
 ASSUMPTIONS = ["worker threads are modelled at start/join granularity (Spawn: a thread started and joined by the operation's own code); "
                "true concurrency is not (the per-alias output counter is a non-atomic read-modify-write, runtime behaviour no "
@@ -35,7 +41,7 @@ THEOREMS = ["C01_nested_not_intercepted", "C01_simulation", "C01_replay_reproduc
             "C01_nonfunctional_refuted"]
 
 W = dict(rd.DEFAULT_W, spawn=0.6, spawn_in_body=False, fault=0.0, unser=0.0, discard=0.0, force=0.3, interrupt=0.0, raise_=0.2, enable=0.0, prep_discards=0.0,
-         playdata=0.0, recdata=0.4, missing_opts=0.1, fallbacks=0.2, handler=0.25, nested=0.3)
+         playdata=0.0, recdata=0.4, missing_opts=0.1, fallbacks=0.2, handler=0.25, nested=0.3, unsized_handlers=0.3)
 PRM = dict(rate=[1, 1], ignore=False, skipped=False, copy=False)
 
 
@@ -206,9 +212,96 @@ def threaded_outputs(rng):
     return dict(cls="OpA", classlevel=False, extractor={"kind": "none"}, body=c)
 
 
+def _icfg(alias, static, handler="none", cap=None, fallbacks=None):
+    return dict(alias=alias, resolver={"kind": "none"}, cap=cap, static=static, property=False, handler=handler,
+                prep_discards=False, run_missing=False, vmiss={"kind": "none"}, fallbacks=fallbacks or {"kind": "none"})
+
+
+def fallback_priority_ops():
+    """A renamed input that keeps its old alias as a fallback while the OLD input is still in use: both are called with equal
+    arguments in one operation, each answering differently, so the recording holds data under the main alias key AND under a
+    fallback alias key of the renamed input.  The candidates are a priority list (main alias first): the renamed input must
+    get what IT returned.  Every combination of {old input called before / after the renamed one} x {the fallback key sorts
+    before / after the main key} x {fallbacks as list / function} x {two fallbacks, the recorded one listed last} - the order
+    in which a cassette hands the keys back (insertion order in memory, sorted by the JSON stores) must not matter."""
+    out = []
+    k = 0
+    for old_first in (True, False):
+        for main, old in (("profile_v2", "profile"), ("account", "legacy.account")):     # old < main ; main < old
+            for fk in ("list", "fun"):
+                for fbl in ([old], ["never.recorded", old]):
+                    static = bool(k % 2)
+                    handler = ["none", "wrap"][(k // 2) % 2]
+                    s_old = {"k": "in", "cfg": _icfg(old, static, handler), "body": {"k": "ret", "e": {"lit": pv.i(10)}},
+                             "args": [{"lit": pv.i(7)}], "kwargs": []}
+                    s_new = {"k": "in", "cfg": _icfg(main, static, handler, fallbacks={"kind": fk, "l": list(fbl)}),
+                             "body": {"k": "ret", "e": {"lit": pv.i(11)}}, "args": [{"lit": pv.i(7)}], "kwargs": []}
+                    send = {"k": "out", "cfg": dict(alias="send", static=True, handler="none", fail=True, default=pv.none()),
+                            "body": {"k": "ret", "e": {"lit": pv.none()}}, "args": [{"var": 0}, {"var": 1}], "kwargs": []}
+                    c = {"k": "ret", "e": {"var": 1}}       # (the outputs and the result depend on both answers)
+                    for st in reversed(([s_old, s_new] if old_first else [s_new, s_old]) + [send]):
+                        st["next"] = c
+                        c = st
+                    out.append((dict(cls="OpA", classlevel=False, extractor={"kind": "none"}, body=c), k))
+                    k += 1
+    return out
+
+
+def named_captures(rng):
+    """One input with TWO OR THREE captured arguments given by position and name (the usual CapturedArg(2, 'b') form), all
+    passed positionally, called several times with the same values in different positions - every call has its own key
+    and its own answer, and a key built from the same values in another order is the key of another call."""
+    static = rng.random() < 0.5
+    lo = 0 if static else 1
+    npos = rng.choice([2, 3, 3])
+    names = rng.sample(["origin", "dest", "day", "a", "b", "opt"], npos)
+    order = list(range(npos))
+    rng.shuffle(order)                                   # (capture_args need not be listed in positional order)
+    cap = [[lo + p, names[p]] for p in order]
+    vals = rng.choice([[pv.s("TLV"), pv.s("LHR"), pv.s("fri")], [pv.i(1), pv.i(2), pv.i(3)], [pv.s("a"), pv.s("b"), pv.s("c")]])[:npos]
+    import itertools
+    perms = list(itertools.permutations(vals))
+    rng.shuffle(perms)
+    perms = perms[:rng.randrange(2, 5)]
+    cf = _icfg(rng.choice(["fare", "db.fetch"]), static, rng.choice(["none", "none", "wrap"]), cap=cap)
+    c = {"k": "ret", "e": {"var": 0}}
+    send = {"k": "out", "cfg": dict(alias="send", static=True, handler="none", fail=True, default=pv.none()),
+            "body": {"k": "ret", "e": {"lit": pv.none()}}, "args": [{"var": i} for i in range(len(perms))], "kwargs": [], "next": c}
+    c = send
+    for i, pm in reversed(list(enumerate(perms))):
+        args = list(pm) + [pv.s("uncaptured")] * (3 - npos)
+        c = {"k": "in", "cfg": rd.clean(cf), "body": {"k": "ret", "e": {"lit": pv.i(300 + 7 * i)}},
+             "args": [{"lit": a} for a in args], "kwargs": [], "next": c}
+    return dict(cls="OpA", classlevel=False, extractor={"kind": "none"}, body=c)
+
+
+XPROC_SEEDS = ["1", "2", "3"]
+
+
+def xproc_case(op, copy=False):
+    """recorded by one interpreter process into a file-based cassette, replayed by OTHER processes (one per replay, each with
+    its own PYTHONHASHSEED; the recording process runs with seed 0): see harness/impl/rec_probes.py"""
+    runs = [dict(kind="record", enabled=True, prm=dict(PRM, copy=copy), op=op, save_fails=False)]
+    segs = [{"runs": [0], "hashseed": "0"}]
+    for k, hs in enumerate(XPROC_SEEDS):
+        runs.append(dict(kind="play", target=0, pf={"kind": "op", "op": rd.clean(op)}, enabled=bool(k % 2)))
+        segs.append({"runs": [k + 1], "hashseed": hs})
+    return dict(kind="xproc", draws=[], runs=runs, segments=segs, cassette="file", unshare=True)
+
+
 def generate(rng, tier):
     cases = []
     frng = random.Random(rng.random())      # (its own stream: the cases below do not shift the ones after them)
+    for op, k in fallback_priority_ops():   # main alias and a recorded fallback alias both present (deterministic, always runs)
+        runs = [dict(kind="record", enabled=True, prm=dict(PRM), op=op, save_fails=False),
+                dict(kind="play", target=0, pf={"kind": "op", "op": rd.clean(op)}, enabled=bool(k % 2))]
+        cases.append(dict(draws=[], runs=runs, cassette=["memory", "file", "s3"][k % 3], unshare=True))
+    xrng = random.Random(frng.random())
+    xp = [xproc_case(named_captures(xrng)) for _ in range(6 if tier == "quick" else 24)]
+    for _ in range(4 if tier == "quick" else 24):        # programs of the main stream, through separate processes
+        op = rd.rand_opdef(xrng, W, budget=xrng.choice([5, 9]), cls="OpA")
+        functionalise(xrng, op["body"], {})
+        xp.append(xproc_case(op, copy=xrng.random() < 0.3))
     for static in (True, False):            # every captured position of static and instance inputs, and capture by name
         for pos, byname in ((0, False), (1, False), (2, False), (0, True)):
             op = capture_subsets(frng, static, pos, byname)
@@ -241,6 +334,10 @@ def generate(rng, tier):
             runs.append(dict(kind="play", target=0, pf={"kind": "op", "op": rd.clean(op)}, enabled=rng.random() < 0.5))
         cases.append(dict(draws=[], runs=runs, cassette=["memory", "file", "s3"][i % 3], unshare=True))
     cases += mutation_probes()
+    # the cross-process cases start several interpreters each: spread them over the driver's (contiguous) shards
+    step = max(1, len(cases) // len(xp))
+    for j, c in enumerate(xp):
+        cases.insert(min(len(cases), j * (step + 1) + 3), c)
     return cases
 
 
@@ -433,7 +530,20 @@ def explain(case, obs):  # noqa: F811
 
 def features(case):  # noqa: F811
     if case.get("kind") != "mutation":
-        return _h_features(case)
+        fs = _h_features(case)
+        if case.get("kind") == "xproc":
+            fs |= {"recorded-and-replayed-by-different-processes", "hash-seeds:" + ",".join(sg["hashseed"] for sg in case["segments"])}
+        for r in case["runs"]:
+            if r["kind"] == "record":
+                caps = [len([c for c in n["cfg"]["cap"] if c[0] is not None and c[1]]) for n in rd.walk(r["op"]["body"])
+                        if n["k"] == "in" and n["cfg"]["cap"]]
+                if any(c >= 2 for c in caps):
+                    fs.add("in:two-or-more-named-positional-captures")
+                ins = [n for n in rd.walk(r["op"]["body"]) if n["k"] == "in"]
+                if any(n["cfg"]["fallbacks"]["kind"] in ("list", "fun") and
+                       any(m is not n and m["cfg"]["alias"] in n["cfg"]["fallbacks"]["l"] for m in ins) for n in ins):
+                    fs.add("in:fallback-alias-also-recorded-by-another-input")
+        return fs
     return {"probe:mutated-after-capture", "probe-shape:" + case["shape"], "probe-handler:%s" % case.get("handler"),
             "probe-input:" + ("static" if case.get("static") else "instance"), "cassette:" + case["cassette"],
             "probe-inputs:%d" % len(case["inputs"]), "copy-on-interception",
@@ -466,7 +576,9 @@ MANIFEST = dict(
          "playback and recorded outputs compared with the model. Direct predicate: play() returns, every outermost "
          "intercepted call gets its recorded outcome in order, no body runs, playback_outputs == recorded_outputs; the same predicate "
          "on hand-written operations that mutate their inputs in place after capture with copy-on-interception on (all container "
-         "shapes, three cassettes; implementation only).",
+         "shapes, three cassettes; implementation only). Round 6: the history may be spread over several interpreter processes "
+         "(recording process and every replaying process with a different PYTHONHASHSEED, file-based cassette in between) - model "
+         "and direct predicate apply unchanged; main alias and a recorded fallback alias both present in one recording.",
     note="Partial: worker threads inside an operation are not modelled (single-threaded theorem). Hypotheses: no "
          "enable/disable/play_data statements, restore(prepare v) = v, functional trace, canonical stored values (tree "
          "domain; sharing is known finding F07c). Trusted: Coq kernel + vm_compute, hand-written model, correspondence "
